@@ -456,9 +456,9 @@ def classify_history_failure(hr: HistoryRun, mm: dict) -> dict:
     return sig
 
 
-def history_part(ctx: vlib.Ctx):
+def history_part(ctx: vlib.Ctx, n_hist=None, tag=""):
     r = ctx.rng
-    n_hist = ctx.budget(45, 500)
+    n_hist = n_hist or ctx.budget(45, 500)
     cases, descr = [], []
     kf_hits = 0
     for h in range(n_hist):
@@ -493,9 +493,9 @@ def history_part(ctx: vlib.Ctx):
                     ctx.sample({"history": [o[:4] for o in ops], "dialects": spec["dialects"]})
         finally:
             hr.close()
-    bad, log = vlib.coq_bad_idx("c13_cache", "DialectCache", "", "Open Scope nat_scope.\n", cases,
+    bad, log = vlib.coq_bad_idx("c13_cache" + tag, "DialectCache", "", "Open Scope nat_scope.\n", cases,
                                 "cache_case_ok", "cache_case", shard=250, needs=["theories/DialectCache.vo"])
-    name = "cache-state-machine-vs-real-class-families"
+    name = "cache-state-machine-vs-real-class-families" + tag
     if bad is None:
         ctx.correspondence(name, len(cases), -1, log)
         ctx.not_shown("correspondence " + name, log)
@@ -682,6 +682,24 @@ def run(ctx: vlib.Ctx):
     d14_probe(ctx)
     union_part(ctx)
     CD.codec_part(ctx)
+    if ctx.tier == "thorough":
+        coqchk(ctx)
+    if ctx.unshown and not any(vlib.match_known(ctx.pid, f, vlib.load_known_findings()) is None for f in ctx.failures):
+        # a proof obligation or a correspondence broke and the normal budget found no unlisted failing input:
+        # search harder before reporting no-failing-input-found
+        ctx.notes.append("extended search after a broken obligation/correspondence")
+        history_part(ctx, n_hist=ctx.budget(250, 600), tag="_ext")
+        CD.codec_part(ctx, extra=ctx.budget(120, 300))
+
+
+def coqchk(ctx: vlib.Ctx):
+    """Second opinion of the independent checker on the compiled property file (thorough tier)."""
+    rc, log, secs = vlib.run(["timeout", "600", "coqchk", "-silent", "-o", "-Q", "theories", "Verif", "-Q", "gen", "VerifGen",
+                              "-Q", "props", "VerifProps", "VerifProps.C13_dialects"], cwd=vlib.COQ, timeout=630)
+    ok = rc == 0 and "Axioms: <none>" in log and "type-in-type: <none>" in log
+    ctx.obligation("coqchk VerifProps.C13_dialects (no axioms, no type-in-type, no unsafe fixpoints)", ok, log[-600:])
+    if not ok:
+        ctx.not_shown("coqchk VerifProps.C13_dialects", log[-1500:])
 
 
 def replay(rep: dict) -> int:
